@@ -369,6 +369,7 @@ package proxy
 // The provider is built for the slug of the configuration it is given.
 //@ func newProvider(cc ClientConfig, pc ProviderConfig, sc SessionConfig, uc UpstreamConfigs, statsdClient *statsd.Client) (providers.Provider, error)
 //@   modifies everything
+//@   ensures [C05 C04] provider_gets_the_configured_ttls: result.1 == nil ==> at(@New#1, arg(@New#1, 1).GracePeriodTTL) == old(sc.TTLConfig.GracePeriod) && at(@New#1, arg(@New#1, 1).SessionValidTTL) == old(sc.TTLConfig.Valid) && at(@New#1, arg(@New#1, 1).SessionLifetimeTTL) == old(sc.TTLConfig.Lifetime)
 //@   ensures [C13] provider_has_the_given_default_slug: result.1 == nil ==> called(@New#1) && at(@New#1, arg(@New#1, 1).ProviderSlug) == old(uc.DefaultConfig.ProviderSlug) && called(@NewSingleFlightProvider#1) && arg(@NewSingleFlightProvider#1, 0) == @New#1 && typeis(result.0, "*proxy/providers.SingleFlightProvider")
 
 // One provider, reverse proxy, validator set and OAuthProxy per upstream, each from that upstream's configuration.
@@ -378,6 +379,9 @@ package proxy
 //@   sink [C13] provider_is_the_default_when_none_stated: newProvider requires upstreamConfig.ProviderSlug == "" ==> $arg3.DefaultConfig.ProviderSlug == config.UpstreamConfigs.DefaultConfig.ProviderSlug
 //@   sink [C13] backend_is_the_upstreams_own: NewUpstreamReverseProxy requires $arg0 == upstreamConfig
 //@   sink [C13] policy_is_the_upstreams_own: SetUpstreamConfig requires $arg0 == upstreamConfig
+// (`route` is the type-switch variable: a *SimpleRoute in the arm that registers statically, a *RewriteRoute in the other)
+//@   sink [C13] static_table_only_for_simple_routes: HandleStatic requires $arg1 == before(@Handler#1, route.FromURL.Host)
+//@   sink [C13] rewrite_routes_in_the_ordered_table: HandleRegexp requires $arg1 == before(@Handler#2, route.FromRegex)
 
 // ---- C02: the proxy's cookie cipher is keyed with the whole decoded cookie secret ---------------------------------
 //@ func SetCookieStore$1(op *OAuthProxy) error
